@@ -99,6 +99,33 @@ pub fn run_threads(
     }
 }
 
+/// Reductions of `params.threads` (a list of per-thread op lists): drop a whole thread
+/// (keeping at least two), or drop one op of one thread. The schedule is re-searched.
+pub fn shrink_thread_programs(case: &Case) -> Vec<Case> {
+    let mut out = Vec::new();
+    let Some(threads) = case.params.get("threads").and_then(|t| t.as_array()) else { return out };
+    if threads.len() > 2 {
+        for i in 0..threads.len() {
+            let mut c = case.clone();
+            c.schedule = None;
+            c.params["threads"].as_array_mut().unwrap().remove(i);
+            out.push(c);
+        }
+    }
+    for (i, t) in threads.iter().enumerate() {
+        let n = t.as_array().map(|a| a.len()).unwrap_or(0);
+        if n > 1 {
+            for j in 0..n {
+                let mut c = case.clone();
+                c.schedule = None;
+                c.params["threads"][i].as_array_mut().unwrap().remove(j);
+                out.push(c);
+            }
+        }
+    }
+    out
+}
+
 pub fn gen_mode(rng: &mut Rng) -> SchedMode {
     match rng.below(5) {
         0 => SchedMode::Random { p_switch_permille: 500 },
@@ -487,6 +514,28 @@ impl Check for SnapshotCheck {
         res.viols.retain(|v| seen.insert(v.class.clone()));
         res
     }
+    fn shrink_candidates(&self, case: &Case) -> Vec<Case> {
+        let mut out = Vec::new();
+        for (key, min) in [("readers", 1u64), ("snaps_per_reader", 1), ("dumps_per_snap", 1)] {
+            if let Some(v) = case.params.get(key).and_then(|v| v.as_u64())
+                && v > min
+            {
+                let mut c = case.clone();
+                c.schedule = None;
+                c.params[key] = serde_json::json!(v - 1);
+                out.push(c);
+            }
+        }
+        if let Some(m) = case.params.get("maintenance").and_then(|m| m.as_array()) {
+            for i in 0..m.len() {
+                let mut c = case.clone();
+                c.schedule = None;
+                c.params["maintenance"].as_array_mut().unwrap().remove(i);
+                out.push(c);
+            }
+        }
+        out
+    }
     fn rule(&self) -> String {
         "One writer thread executes a generated L1 history (commits, abandoned transactions, compaction, index creation) on a shared engine while 1-3 reader threads take snapshots and dump them repeatedly, keeping earlier snapshots alive and re-reading them after later writer steps. All threads run under the seeded cooperative scheduler (uniform-random with per-run switch probability 0.5%..50%, or PCT with depth 1-3); every Mutex/RwLock acquisition, AtomicU64 access and mutating I/O step of the engine is a scheduling point. Oracle on the recorded history (global event numbers): a snapshot whose creation spans writer operations lo..hi must equal exactly one model state S_j, lo <= j <= hi, and every later dump of the same snapshot must equal its first. evaluations = simulated runs; distinct_nontrivial = distinct context-switch sequences (hash of (thread, step) at every switch).".into()
     }
@@ -730,6 +779,9 @@ impl Check for DeadlockCheck {
             }
         }
         res
+    }
+    fn shrink_candidates(&self, case: &Case) -> Vec<Case> {
+        shrink_thread_programs(case)
     }
     fn rule(&self) -> String {
         "2-5 simulated threads, each a PRNG mix of: small write transactions (some abandoned), compaction, index creation, snapshot + full read, index lookup, node/edge counts (statistics cache), vector insertion and search, first use of a new label. Seeded cooperative scheduler (random with switch probability 0.5%..50%, or PCT depth 1-3); every lock acquisition / atomic access / I/O step is a scheduling point. Violation = the exact deadlock condition (every unfinished thread parked on a lock; the wait-for description is printed) or no completion within the step cap (bounded liveness without faults). The lock-order graph observed across all runs is reported as evidence (edge A->B with the locks common to all observations), never as an alarm. evaluations = simulated runs; distinct_nontrivial = distinct context-switch sequences.".into()
